@@ -23,16 +23,16 @@ Definition check_fit_api (c : string * list (Z * bool * Q) * list (string * list
 
 (* _estimate_hour_of_week_occupancy: (no complete row, threshold (None = the default of the source), residual rows
    (hour of week, residual > 0), the returned lookup over 0..167 with None = NaN) *)
-Definition check_occupancy_rule (c : bool * option Q * list (Z * bool) * list (option bool)) : bool :=
+Definition check_occupancy_rule (c : bool * option float * list (Z * bool) * list (option bool)) : bool :=
   let '(no_data, thr, rows, observed) := c in
-  let t := match thr with Some t => t | None => default_occupancy_threshold end in
-  list_eqb (opt_eqb Bool.eqb) (occupancy_lookup no_data t rows) observed.
+  let t := match thr with Some t => t | None => default_occupancy_threshold_f end in
+  list_eqb (opt_eqb Bool.eqb) (occupancy_lookup_f no_data t rows) observed.
 
 Inductive c18case2 : Type :=
 | Old (c : c18case)
 | CFitBins (c : list Q * list Q * Z * list Q)
 | CFitApi (c : string * list (Z * bool * Q) * list (string * list bool * list bool))
-| COccRule (c : bool * option Q * list (Z * bool) * list (option bool)).
+| COccRule (c : bool * option float * list (Z * bool) * list (option bool)).
 
 Definition check_any2 (c : c18case2) : bool :=
   match c with
